@@ -17,16 +17,24 @@ Record dcase := DC {
   dc_files : list (obs domainv);     (* per-agent dumps in discovery order; Raised: the file does not parse *)
   dc_obs : obs domainv;              (* locate_domains *)
   dc_fresh_after : list string;      (* names in Domain().types after the call *)
-  dc_others_same : bool;             (* unrelated domains parsed before: unchanged, and parse the same again *)
-  dc_rt : bool;                      (* export + re-parse gave the same maps *)
+  dc_default_after : list string;    (* names in the module-level DEFAULT_TYPES after the call *)
+  dc_others : list alist;            (* unrelated domains (typed, untyped, one sharing type names with the files):
+                                        name -> digest of the object parsed BEFORE the call, taken before the call
+                                        (head of the list), after locate_domains and at the end of the job; and
+                                        name -> digest of the same text PARSED AGAIN at those two moments *)
+  dc_rt : obs domainv;               (* the combination exported by DomainExporter and parsed again (Raised: the
+                                        export or the parse raised) *)
+  dc_obs2 : obs domainv;             (* locate_domains with the OTHER setting of add_dummy_actions *)
+  dc_rt2 : obs domainv;              (* ... exported and parsed again *)
   dc_expect : option domainv         (* the unsplit domain the generator started from *)
 }.
 
 Record pcase := PC {
   pc_files : list (obs problemv);
   pc_obs : obs problemv;
-  pc_rt : bool;
+  pc_rt : obs problemv;              (* the combination exported by ProblemExporter and parsed again *)
   pc_fresh_after : list string;      (* names in Domain().types after combine_problems / export_combined_problem *)
+  pc_others : list alist;            (* as dc_others: before the job, at its end, parsed again at its end *)
   pc_expect : option problemv
 }.
 
@@ -86,6 +94,8 @@ Definition problem_eqb (a b : problemv) : bool :=
 (* ---------------------------------------------------------------- model *)
 Definition d_model (c : dcase) : obs domainv :=
   obs_of_result (locate_domains_r (dc_defaults c) (dc_dummy c) (map result_of_obs (dc_files c))).
+Definition d_model2 (c : dcase) : obs domainv :=
+  obs_of_result (locate_domains_r (dc_defaults c) (negb (dc_dummy c)) (map result_of_obs (dc_files c))).
 
 (* names a Domain() created after the call starts with, by the store model *)
 Definition d_model_fresh (c : dcase) : list string :=
@@ -104,28 +114,57 @@ Definition section_ok (ds : list alist) (c : alist) : bool :=
 Definition dummy_preds : alist := [(DUMMY_PRED, DUMMY_PRED_TEXT)].
 Definition dummy_acts : alist := [(DUMMY_ADD, DUMMY_ADD_TEXT); (DUMMY_DEL, DUMMY_DEL_TEXT)].
 
+(* every observation of the unrelated domains equals the first one (taken before the call) *)
+Definition others_same_b (l : list alist) : bool :=
+  match l with
+  | [] => true
+  | ref :: rest => forallb (fun o => map_equiv_b ref o) rest
+  end.
+
+(* the sections of the combination [r] against the per-agent files, with or without the dummy entries *)
+Definition union_checks (tag : string) (dm : bool) (defaults : alist) (fs : list domainv) (r : domainv)
+  : list (string * bool) :=
+  [((tag ++ "types")%string, section_ok (defaults :: map d_types fs) (d_types r));
+   ((tag ++ "constants")%string, section_ok (map d_consts fs) (d_consts r));
+   ((tag ++ "predicates")%string, section_ok ((if dm then [dummy_preds] else []) ++ map d_preds fs) (d_preds r)
+                  && (negb dm || forallb (fun kv => mem_pair kv (d_preds r)) dummy_preds));
+   ((tag ++ "functions")%string, section_ok (map d_funcs fs) (d_funcs r));
+   ((tag ++ "actions")%string, section_ok ((if dm then [dummy_acts] else []) ++ map d_acts fs) (d_acts r)
+               && (negb dm || forallb (fun kv => mem_pair kv (d_acts r)) dummy_acts))].
+
+(* export + re-parse, section by section: the re-read file has the combination's maps.
+   Files that contradict each other about the parent of a type give a combination whose type objects
+   are mixed: the dictionary holds the last file's declaration of the type, but a subtype declared by
+   another file still points to that file's own (losing) declaration, so its ancestor chain differs
+   from the one obtained by re-reading the exported names.  Such a combination is not one domain;
+   what the property demands of contradicting files is the weak union only ([lenient]). *)
+Definition rt_checks (tag : string) (lenient : bool) (r : domainv) (rt : obs domainv) : list (string * bool) :=
+  match rt with
+  | Raised => [((tag ++ "the export or the parse of the exported file raised")%string, lenient)]
+  | Returned d =>
+      [((tag ++ "types")%string, lenient || map_equiv_b (d_types r) (d_types d));
+       ((tag ++ "constants")%string, lenient || map_equiv_b (d_consts r) (d_consts d));
+       ((tag ++ "predicates")%string, lenient || map_equiv_b (d_preds r) (d_preds d));
+       ((tag ++ "functions")%string, lenient || map_equiv_b (d_funcs r) (d_funcs d));
+       ((tag ++ "actions")%string, lenient || map_equiv_b (d_acts r) (d_acts d))]
+  end.
+
 Definition d_checks (c : dcase) : list (string * bool) :=
-  match returned_all (dc_files c), dc_obs c with
-  | None, _ => [("some file does not parse: nothing demanded", true)]
-  | Some fs, Raised => [("all files parse but the call raised", false)]
-  | Some fs, Returned r =>
+  match returned_all (dc_files c), dc_obs c, dc_obs2 c with
+  | None, _, _ => [("some file does not parse: nothing demanded", true)]
+  | Some fs, Raised, _ => [("all files parse but the call raised", false)]
+  | Some fs, _, Raised => [("all files parse but the call with the other dummy setting raised", false)]
+  | Some fs, Returned r, Returned r2 =>
       let dm := dc_dummy c in
-      [("types", section_ok (dc_defaults c :: map d_types fs) (d_types r));
-       ("constants", section_ok (map d_consts fs) (d_consts r));
-       ("predicates", section_ok ((if dm then [dummy_preds] else []) ++ map d_preds fs) (d_preds r)
-                      && (negb dm || forallb (fun kv => mem_pair kv (d_preds r)) dummy_preds));
-       ("functions", section_ok (map d_funcs fs) (d_funcs r));
-       ("actions", section_ok ((if dm then [dummy_acts] else []) ++ map d_acts fs) (d_acts r)
-                   && (negb dm || forallb (fun kv => mem_pair kv (d_acts r)) dummy_acts));
-       ("default types untouched", set_equiv_b (dc_fresh_after c) ["object"]);
-       ("other domains untouched", dc_others_same c);
-       (* files that contradict each other about the parent of a type give a combination whose type objects
-          are mixed: the dictionary holds the last file's declaration of the type, but a subtype declared by
-          another file still points to that file's own (losing) declaration, so its ancestor chain differs
-          from the one obtained by re-reading the exported names.  Such a combination is not one domain;
-          what the property demands of contradicting files is the weak union only *)
-       ("export/re-parse", dc_rt c || negb (agree_b (dc_defaults c :: map d_types fs)));
-       ("equals the unsplit domain",
+      let lenient := negb (agree_b (dc_defaults c :: map d_types fs)) in
+      union_checks "" dm (dc_defaults c) fs r ++
+      union_checks "other dummy setting: " (negb dm) (dc_defaults c) fs r2 ++
+      [("default types untouched", set_equiv_b (dc_fresh_after c) ["object"] &&
+                                   set_equiv_b (dc_default_after c) ["object"]);
+       ("other domains untouched, parsed again the same", others_same_b (dc_others c))] ++
+      rt_checks "export/re-parse: " lenient r (dc_rt c) ++
+      rt_checks "export/re-parse, other dummy setting: " lenient r2 (dc_rt2 c) ++
+      [("equals the unsplit domain",
         match dc_expect c with
         | None => true
         | Some e =>
@@ -137,6 +176,17 @@ Definition d_checks (c : dcase) : list (string * bool) :=
         end)]
   end.
 
+Definition prt_checks (r : problemv) (rt : obs problemv) : list (string * bool) :=
+  match rt with
+  | Raised => [("export/re-parse: the export or the parse of the exported file raised", false)]
+  | Returned q =>
+      [("export/re-parse: objects", map_equiv_b (p_objs r) (p_objs q));
+       ("export/re-parse: fluents", map_equiv_b (p_fluents r) (p_fluents q));
+       ("export/re-parse: facts", pairs_equiv_b (flat (p_facts r)) (flat (p_facts q)));
+       ("export/re-parse: goals", set_equiv_b (p_goals r) (p_goals q));
+       ("export/re-parse: numeric goals", set_equiv_b (p_ngoals r) (p_ngoals q))]
+  end.
+
 Definition p_checks (c : pcase) : list (string * bool) :=
   match returned_all (pc_files c), pc_obs c with
   | None, _ => [("some file does not parse: nothing demanded", true)]
@@ -146,9 +196,10 @@ Definition p_checks (c : pcase) : list (string * bool) :=
        ("fluents", section_ok (map p_fluents fs) (p_fluents r));
        ("facts", pairs_union_b (map (fun f => flat (p_facts f)) fs) (flat (p_facts r)));
        ("goals", set_union_of_b (map p_goals fs) (p_goals r));
-       ("numeric goals", set_union_of_b (map p_ngoals fs) (p_ngoals r));
-       ("export/re-parse", pc_rt c);
-       ("default types untouched", set_equiv_b (pc_fresh_after c) ["object"]);
+       ("numeric goals", set_union_of_b (map p_ngoals fs) (p_ngoals r))] ++
+      prt_checks r (pc_rt c) ++
+      [("default types untouched", set_equiv_b (pc_fresh_after c) ["object"]);
+       ("other domains untouched, parsed again the same", others_same_b (pc_others c));
        ("equals the unsplit problem",
         match pc_expect c with None => true | Some e => problem_eqb r e end)]
   end.
@@ -159,6 +210,7 @@ Definition judge (c : case) : verdict :=
   match c with
   | CD c =>
       {| v_agree := obs_eqb domain_eqb (d_model c) (dc_obs c) &&
+                    obs_eqb domain_eqb (d_model2 c) (dc_obs2 c) &&
                     set_equiv_b (d_model_fresh c) (dc_fresh_after c);
          v_ok := all_ok (d_checks c);
          v_known := false |}
@@ -173,6 +225,6 @@ Definition run (cases : list case) : string := summary judge cases.
 (* debugging aid: the failed sub-checks and what the model computes *)
 Definition explain (c : case) :=
   match c with
-  | CD c => (filter (fun x => negb (snd x)) (d_checks c), inl (d_model c, d_model_fresh c))
+  | CD c => (filter (fun x => negb (snd x)) (d_checks c), inl (d_model c, d_model2 c, d_model_fresh c))
   | CP c => (filter (fun x => negb (snd x)) (p_checks c), inr (p_model c))
   end.
